@@ -10,7 +10,7 @@ func init() {
 	register(&propDef{
 		ID:      "C12",
 		Level:   "other",
-		Explain: "Gate dominance and fail-closed decisions, decided on every CFG path; the exported methods (HTTPProxy.ServeHTTP, every ServeTCP, Target.AccessDeniedHTTP / AccessDeniedTCP / Authorized / ProcessAccessRules, the auth schemes' Authorized) are named, everything else is found by role, and a verdict counts wherever it is established (directly, through bool / status-code / error helpers, flags, && and ||, in the entry point or in a helper it calls): (G1) every upstream-contact site and every redirect reachable from HTTPProxy.ServeHTTP lies behind AccessDeniedHTTP()==false and Authorized()==true, both applied to the target the route lookup returned; (G2) in every tcp.Handler implementation every dial lies behind AccessDeniedTCP()==false on the looked-up target, and the dialled address stems from that very lookup; (S1) the deny edges answer 403/401 and go on to no gated effect; (F1) decision functions deny on anomaly edges (nil parsed IP with rules configured, unknown auth scheme) and AccessDeniedHTTP/TCP answer `not denied` without consulting the per-address decision only on the no-rules edge and the trusted anomalies; (F2) wherever ProcessAccessRules is called, its error edge installs a deny-all rule set (an allow tag without blocks) or gives the target up; (F3) the per-address decision (bool function of package route that consults Target.accessRules by tag and net.IPNet.Contains): with the allow tag present `not denied` only under Contains==true and `denied` otherwise, with the deny tag present `denied` under Contains==true, each of these outcomes present; (X1) the X-Forwarded-For walk puts elements to the per-address decision, can be left early only by denying, a denying verdict is returned by AccessDeniedHTTP/TCP, and both the peer address and the X-Forwarded-For elements are put to it; (A1) an auth scheme answers true only from the Match of its credential store on this request; (X1) the text of an X-Forwarded-For element handed to net.ParseIP is the element itself (split/trimmed at characters no address contains), with no substring surgery on the way. Not decided: CIDR arithmetic of net.IPNet.Contains, credential checking of the auth schemes (values).",
+		Explain: "Gate dominance and fail-closed decisions, decided on every CFG path; the exported methods (HTTPProxy.ServeHTTP, every ServeTCP, Target.AccessDeniedHTTP / AccessDeniedTCP / Authorized / ProcessAccessRules, the auth schemes' Authorized) are named, everything else is found by role, and a verdict counts wherever it is established (directly, through bool / status-code / error helpers, flags, && and ||, in the entry point or in a helper it calls): (G1) every upstream-contact site and every redirect reachable from HTTPProxy.ServeHTTP lies behind AccessDeniedHTTP()==false and Authorized()==true, both applied to the target the route lookup returned; (G2) in every tcp.Handler implementation every dial lies behind AccessDeniedTCP()==false on the looked-up target, and the dialled address stems from that very lookup; (S1) the deny edges answer 403/401 and go on to no gated effect; (F1) decision functions deny on anomaly edges (nil parsed IP with rules configured, unknown auth scheme) and AccessDeniedHTTP/TCP answer `not denied` without consulting the per-address decision only on the no-rules edge and the trusted anomalies; (F2) wherever ProcessAccessRules is called, its error edge installs a deny-all rule set (an allow tag without blocks) or gives the target up; (F3) the per-address decision (bool function taking a net.IP that consults the target's rule set by tag and net.IPNet.Contains - the rule set being the field of route.Target that ProcessAccessRules fills, any value of that field's named type, or a parameter fed with it; a wrapper has the decision table of what it wraps): with the allow tag present `not denied` only under Contains==true and `denied` otherwise, with the deny tag present `denied` under Contains==true, each of these outcomes present; (X1) the X-Forwarded-For walk puts elements to the per-address decision, can be left early only by denying, a denying verdict is returned by AccessDeniedHTTP/TCP, and both the peer address and the X-Forwarded-For elements are put to it; (A1) an auth scheme (an implementation of the interface method through which Target.Authorized gets its verdict) answers true only from the Match of its credential store on this request, or as the positive verdict of another scheme it asks; (X1) the text of an X-Forwarded-For element handed to net.ParseIP is the element itself (split/trimmed at characters no address contains), with no substring surgery on the way. Not decided: CIDR arithmetic of net.IPNet.Contains, credential checking of the auth schemes (values).",
 		Run:     runC12,
 		Trusted: []string{"net/http sets Request.RemoteAddr to ip:port (SplitHostPort cannot fail there)", "all fabio listeners yield *net.TCPAddr remote addresses", "net.IPNet.Contains implements CIDR membership"},
 		Mutants: append([]mutant{
@@ -36,7 +36,7 @@ func init() {
 			{Name: "helper that admits on the access-denied edge", File: "proxy/http_proxy.go", Old: "\tif t.AccessDeniedHTTP(r) {\n\t\thttp.Error(w, \"access denied\", http.StatusForbidden)\n\t\treturn\n\t}\n\n\tif !t.Authorized(r, w, p.AuthSchemes) {\n\t\thttp.Error(w, \"authorization failed\", http.StatusUnauthorized)\n\t\treturn\n\t}\n", New: "\tif !p.admit(w, r, t) {\n\t\treturn\n\t}\n", Expect: "C12.G1",
 				More: []repl{{"func key(code int) string {", "func (p *HTTPProxy) admit(w http.ResponseWriter, r *http.Request, t *route.Target) bool {\n\tif t.AccessDeniedHTTP(r) {\n\t\tw.Header().Set(\"X-Denied\", \"1\")\n\t}\n\tif !t.Authorized(r, w, p.AuthSchemes) {\n\t\thttp.Error(w, \"authorization failed\", http.StatusUnauthorized)\n\t\treturn false\n\t}\n\treturn true\n}\n\nfunc key(code int) string {"}}},
 			{Name: "benign: gate helper", File: "proxy/http_proxy.go", Old: "\tif t.AccessDeniedHTTP(r) {\n\t\thttp.Error(w, \"access denied\", http.StatusForbidden)\n\t\treturn\n\t}", New: "\tdenied := t.AccessDeniedHTTP(r)\n\tif denied {\n\t\thttp.Error(w, \"access denied\", http.StatusForbidden)\n\t\treturn\n\t}", Expect: ""},
-		}, c12MoreMutants()...),
+		}, append(c12MoreMutants(), c12Round2Mutants()...)...),
 	})
 }
 
